@@ -44,6 +44,8 @@ func LoadReplay(dir string) error {
 	if err != nil {
 		return err
 	}
+	replay.Inputs, replay.Choices, replay.Failed, replay.Checked = nil, nil, nil, nil
+	replay.pos, replay.cho, replay.assumes = 0, 0, 0
 	return json.Unmarshal(b, &replay)
 }
 
@@ -142,7 +144,12 @@ func nSeed() int64                     { return 0 }
 func nBound(name string, v int)        {}
 func nOption(name string)              {}
 func nNote(assumption string)          {}
-func nReverseMapOrder(on bool)         {} // Go's own (random) map order applies natively
+// Go's own (random) map order applies natively: the replay test repeats such a harness several times
+func nReverseMapOrder(on bool) { nativeMapOrder = true }
+
+var nativeMapOrder bool
+
+func ReplayUsesMapOrder() bool { return nativeMapOrder }
 
 // ---- closed-world harnesses: the replay test (an external test package that may import the app) provides a real
 // context and the real keepers; nothing of the environment MODEL is used natively. ----
